@@ -162,6 +162,9 @@ class RuntimeAssertionFeedback(AssertionFeedback):
             assertion_message = self.format_assertion(left, right, contexts)
         # Calculate explanation
         explanation = kwargs.get("explanation", "")
+        # (these three describe the feedback; they are not settings of the relation)
+        for described in ('context', 'assertion', 'explanation'):
+            kwargs.pop(described, None)
         # Add in new fields
         fields = kwargs.setdefault('fields', {})
         fields['left'] = left.value
